@@ -69,7 +69,7 @@ def run(prop, tier, seed):
     cases = _cases(chk, 4 if tier == "quick" else 5)
     if tier == "quick":
         cases = rng.sample(cases, min(len(cases), 2500))
-    jobs = [(rng.randrange(1 << 30), c, rng.choice(["int", "str", "neg", "big", "tuple"]), rng.random() < 0.6) for c in cases]
+    jobs = [(rng.randrange(1 << 30), c, rng.choice(["int", "zero", "str", "neg", "big", "tuple"]), rng.random() < 0.6) for c in cases]
     chk.run_jobs(job_annotate, jobs, "ann", chunk=3000)
     chk.assumptions = ["TLC, the CommunityModules and the JSON bridge are correct",
                        "returned paths are compared as sets of hop sequences (multiplicity of duplicates is not constrained)"]
